@@ -215,16 +215,28 @@ func runHarness(prog *ssa.Program, root *ssa.Package, modPkgs map[string]bool, r
 			o.tag = "Global" // allocated during init: reachable only from globals
 		}
 	}
+	starts := []*State{st}
 	if rc.HashMode == "registry" {
 		reg := registryScan(prog, root)
 		ro.Registry = map[string]string{}
 		for h, s := range reg {
 			ro.Registry[fmt.Sprint(h)] = s
 		}
-		x.setupRegistry(st, reg)
+		// the set of other packages linked into the program is one symbolic Boolean:
+		// "some package outside this package's import closure registers SHA-256"
+		other := x.d.Var("other_package_registers_sha256", 0)
+		st2 := st.clone()
+		st.pc = append(st.pc, other)
+		regWith := map[int64]string{}
+		for k, v := range reg {
+			regWith[k] = v
+		}
+		regWith[5] = "another package"
+		x.setupRegistry(st, regWith)
+		st2.pc = append(st2.pc, x.d.BNot(other))
+		x.setupRegistry(st2, reg)
+		starts = []*State{st, st2}
 	}
-	st.mark = st.seq
-	st.postInit = true
 	var args []Val
 	for i, p := range hf.Params {
 		if i >= len(rc.Args) {
@@ -238,8 +250,13 @@ func runHarness(prog *ssa.Program, root *ssa.Package, modPkgs map[string]bool, r
 		}
 		args = append(args, W{x.d.ConstI(w, rc.Args[i])})
 	}
-	x.pushFrame(st, hf, args, nil)
-	ends = x.explore(st)
+	ends = nil
+	for _, s0 := range starts {
+		s0.mark = s0.seq
+		s0.postInit = true
+		x.pushFrame(s0, hf, args, nil)
+		ends = append(ends, x.explore(s0)...)
+	}
 	sort.SliceStable(ends, func(i, j int) bool { return false })
 	for i, e := range ends {
 		po := &PathOut{ID: i, End: e.end, Panic: e.panicV, Err: e.err, Obs: e.obs, Writes: e.writes, Trace: e.trace, Branches: e.branches, Steps: e.steps}
